@@ -1,3 +1,7 @@
-import Hostd.Proto
-/-- stub driver for the `revision` engine; replaced when the engine is built -/
-def main : IO Unit := IO.println "STATS lines=0 flagged=0"
+import Hostd.Drive.Revision
+open Hostd
+/-- `drv_revision [fixed]`: replays a trace of the `revision` engine on the model
+(`fixed` selects the repaired variant of the validators, see Model/Revision.lean). -/
+def main (args : List String) : IO Unit := do
+  let fx := args.contains "fixed"
+  Proto.loop (← IO.getStdin) ({ fx := fx } : Drive.Revision.DState) Drive.Revision.step Drive.Revision.stats
